@@ -216,6 +216,20 @@ class PySubstCanon:
             return ('empty',), not pol
         if c[0] == 'call' and c[1] == ('attr', SELF, 'can_be_replaced_by'):
             return None
+        # `<X>.metavars().isdisjoint(delta)`: no metavariable of X is instantiated, hence X.instantiate(delta) == X.  One-directional
+        # (a False answer says nothing): the atom ('disjoint', role) = True makes the child unchanged in the comparison, False
+        # leaves it free, so on the False branch the code has to be right whether or not the child changes.
+        if self.p_delta is not None and c[0] == 'call' and c[1][0] == 'attr' and c[1][2] == 'isdisjoint' and len(c[2]) == 1:
+            a, b = c[1][1], c[2][0]
+            keys = (self.p_delta, ('call', ('attr', self.p_delta, 'keys'), (), ()))
+            recv = b if a in keys else (a if b in keys else None)
+            if recv is not None and recv[0] == 'call' and recv[1][0] == 'attr' and recv[1][2] == 'metavars' and not recv[2]:
+                x = recv[1][1]
+                if x == SELF:
+                    return (('disjoint', '*'), pol)
+                r = self.fld(x)
+                if r is not None:
+                    return (('disjoint', r), pol)
         raise AnalysisError(f'{self.cls}.{self.meth}: condition outside the analysed subset: {show(c)}')
 
 
